@@ -329,3 +329,112 @@ fn collect_error_lines(e: &Error, result: &mut Vec<String>) {
     let span_text: Vec<String> = spans.iter().map(|s| format!("{}:{}", s.0, s.1)).collect();
     result.push(format!("{}|{}|{}", variant, names.join(","), span_text.join(",")));
 }
+
+fn hex_atom(s: &str) -> String {
+    let mut out = String::from("h");
+    for b in s.as_bytes() {
+        write!(out, "{:02x}", b).unwrap();
+    }
+    out
+}
+
+fn hex_list(items: &[String]) -> String {
+    let parts: Vec<String> = items.iter().map(|s| hex_atom(s)).collect();
+    format!("({})", parts.join(" "))
+}
+
+fn sp(span: (usize, usize)) -> String { format!("@{}:{}", span.0, span.1) }
+
+fn opt_atom(s: &Option<String>) -> String {
+    match *s { Some(ref x) => hex_atom(x), None => String::from("none") }
+}
+
+/// One S-expression per (flattened) error with every field the renderer reads:
+/// `(Variant item ...)`; strings as `h<hex of the UTF-8 bytes>`, spans as `@start:end`,
+/// a lone location as `@start`, widths as `width_str`, string lists in parentheses.
+pub fn error_sexprs(e: &Error) -> Vec<String> {
+    let mut result = Vec::new();
+    collect_error_sexprs(e, &mut result);
+    result
+}
+
+fn collect_error_sexprs(e: &Error, result: &mut Vec<String>) {
+    let item = match *e {
+        Error::MultipleErrors(ref lst) => {
+            for item in lst {
+                collect_error_sexprs(item, result);
+            }
+            return;
+        },
+        Error::MismatchedMuxWidths(ref options, ref widths) => {
+            let opts: Vec<String> = options.iter().map(|o| sp(o.value.span)).collect();
+            let ws: Vec<String> = widths.iter().map(|w| width_str(*w)).collect();
+            format!("(MismatchedMuxWidths ({}) ({}))", opts.join(" "), ws.join(" "))
+        },
+        Error::MismatchedExprWidths(ref a, wa, ref b, wb) =>
+            format!("(MismatchedExprWidths {} {} {} {})", sp(a.span), width_str(wa), sp(b.span), width_str(wb)),
+        Error::MismatchedWireWidths(ref name, wa, ref b, wb) =>
+            format!("(MismatchedWireWidths {} {} {} {})", hex_atom(name), width_str(wa), sp(b.span), width_str(wb)),
+        Error::MismatchedRegisterDefaultWidths { ref bank, ref register_name, register_width, ref default_expression, expression_width } =>
+            format!("(MismatchedRegisterDefaultWidths {} {} {} {} {})", hex_atom(bank), hex_atom(register_name),
+                    width_str(register_width), sp(default_expression.span), width_str(expression_width)),
+        Error::DuplicateRegister { ref bank, ref register_name } =>
+            format!("(DuplicateRegister {} {})", hex_atom(bank), hex_atom(register_name)),
+        Error::RuntimeMismatchedWidths() => String::from("(RuntimeMismatchedWidths)"),
+        Error::DivisionByZero() => String::from("(DivisionByZero)"),
+        Error::UndeclaredWireAssigned { ref name, span, ref close_name } =>
+            format!("(UndeclaredWireAssigned {} {} {})", hex_atom(name), sp(span), opt_atom(close_name)),
+        Error::UndeclaredWireRead { ref name, ref expr, ref close_name } =>
+            format!("(UndeclaredWireRead {} {} {})", hex_atom(name), sp(expr.span), opt_atom(close_name)),
+        Error::NonConstantWireRead(ref name, ref expr) => format!("(NonConstantWireRead {} {})", hex_atom(name), sp(expr.span)),
+        Error::UnsetWire(ref name, span) => format!("(UnsetWire {} {})", hex_atom(name), sp(span)),
+        Error::UnsetBuiltinWire(ref name) => format!("(UnsetBuiltinWire {})", hex_atom(name)),
+        Error::UnsetUndeclaredWire(ref name) => format!("(UnsetUndeclaredWire {})", hex_atom(name)),
+        Error::UnsetRegisterInputWire { ref name, register_span } =>
+            format!("(UnsetRegisterInputWire {} {})", hex_atom(name), sp(register_span)),
+        Error::RedeclaredWire(ref name, a, b) => format!("(RedeclaredWire {} {} {})", hex_atom(name), sp(a), sp(b)),
+        Error::DoubleAssignedWire(ref name, a, b) => format!("(DoubleAssignedWire {} {} {})", hex_atom(name), sp(a), sp(b)),
+        Error::DoubleAssignedRegisterWire { ref name, register_span, assign_span } =>
+            format!("(DoubleAssignedRegisterWire {} {} {})", hex_atom(name), sp(register_span), sp(assign_span)),
+        Error::DoubleDeclaredRegisterOutWire { ref name, old_span, new_span } =>
+            format!("(DoubleDeclaredRegisterOutWire {} {} {})", hex_atom(name), sp(old_span), sp(new_span)),
+        Error::DoubleAssignedFixedOutWire { ref name, span, ref fixed_name } =>
+            format!("(DoubleAssignedFixedOutWire {} {} {})", hex_atom(name), sp(span), hex_atom(fixed_name)),
+        Error::ConstantAssigned { ref name, assign_span, const_span } =>
+            format!("(ConstantAssigned {} {} {})", hex_atom(name), sp(assign_span), sp(const_span)),
+        Error::RedeclaredBuiltinWire { ref name, span, ref fixed_name } =>
+            format!("(RedeclaredBuiltinWire {} {} {})", hex_atom(name), sp(span), hex_atom(fixed_name)),
+        Error::PartialFixedInput { ref name, ref found_inputs, ref missing_inputs } =>
+            format!("(PartialFixedInput {} {} {})", hex_atom(name), hex_list(found_inputs), hex_list(missing_inputs)),
+        Error::WireLoop(ref lst) => format!("(WireLoop {})", hex_list(lst)),
+        Error::InvalidWireWidth(span) => format!("(InvalidWireWidth {})", sp(span)),
+        Error::InvalidRegisterBankName(ref name, span) => format!("(InvalidRegisterBankName {} {})", hex_atom(name), sp(span)),
+        Error::InvalidBitIndex(ref expr, index) => format!("(InvalidBitIndex {} {})", sp(expr.span), index),
+        Error::NonBooleanWidth(ref expr) => format!("(NonBooleanWidth {})", sp(expr.span)),
+        Error::NoBitWidth(ref expr) => format!("(NoBitWidth {})", sp(expr.span)),
+        Error::MisorderedBitIndexes(ref expr) => format!("(MisorderedBitIndexes {})", sp(expr.span)),
+        Error::InvalidConstant(span) => format!("(InvalidConstant {})", sp(span)),
+        Error::WireTooWide(ref expr) => format!("(WireTooWide {})", sp(expr.span)),
+        Error::ExpectedStatementFoundExpr(ref expr) => format!("(ExpectedStatementFoundExpr {})", sp(expr.span)),
+        Error::UnterminatedComment(loc) => format!("(UnterminatedComment @{})", loc),
+        Error::LexicalError(loc) => format!("(LexicalError @{})", loc),
+        Error::InternalParserErrorNear(span, ref info) => format!("(InternalParserErrorNear {} {})", sp(span), hex_atom(info)),
+        Error::MissingWireWidth(span) => format!("(MissingWireWidth {})", sp(span)),
+        Error::WireAssignedInDeclaration(span) => format!("(WireAssignedInDeclaration {})", sp(span)),
+        Error::MissingRegisterWidth(span) => format!("(MissingRegisterWidth {})", sp(span)),
+        Error::AddedConstWidth(span) => format!("(AddedConstWidth {})", sp(span)),
+        Error::MissingAssignmentMux(span) => format!("(MissingAssignmentMux {})", sp(span)),
+        Error::RegisterDeclaredWithWire(span) => format!("(RegisterDeclaredWithWire {})", sp(span)),
+        Error::NoMuxDefaultOption(ref expr) => format!("(NoMuxDefaultOption {})", sp(expr.span)),
+        Error::MultipleMuxDefaultOption(ref expr) => format!("(MultipleMuxDefaultOption {})", sp(expr.span)),
+        Error::UnreachableOptions(ref expr) => format!("(UnreachableOptions {})", sp(expr.span)),
+        Error::EmptyFile() => String::from("(EmptyFile)"),
+        Error::UnparseableLine(ref line) => format!("(UnparseableLine {})", hex_atom(line)),
+        Error::InvalidToken(loc) => format!("(InvalidToken @{})", loc),
+        Error::UnrecognizedToken { location, ref expected } => format!("(UnrecognizedToken {} {})", sp(location), hex_list(expected)),
+        Error::ExtraToken(span) => format!("(ExtraToken {})", sp(span)),
+        Error::IoError(_) => String::from("(IoError)"),
+        Error::FmtError(_) => String::from("(FmtError)"),
+    };
+    result.push(item);
+}
